@@ -36,6 +36,12 @@ CLAIMED = {
         'create_object destroys only a live server-range predecessor; at most the last incarnation of an id is alive in every reachable table (inv_conn).',
    note='alive is written only by ObjectBase.__init__/destroy (frame obligations of every verified function; global writer scan pending). Floats as reals. The destroyed-annotation text of Message.__str__ is C17 territory.',
    technique='contract-based deductive verification (invariant + frames); z3'),
+ 'C04': dict(level='proof', design='6.C04',
+   text='Manager invariant (name generator index == number of connections ever created, connection k is named by the bijective base-26 letters of k, open connections are open, distinct and have well-formed tables) is established by __init__ and preserved by open_connection / close_connection / message; '
+        'open_connection closes a live connection of the same id, appends exactly one new connection with an initial table and no messages; close_connection is a no-op for unknown ids, keeps the connection listed and emits one notice; message routes to the connection of that id only, and its write footprint is stated per connection '
+        '(own dict, own incarnation lists, objects owned by it, the message and its arguments); the log parser opens on first sight with the role from the get_registry direction, forwards under the message own tag, and closes every known connection exactly once.',
+   note='Assumed: separation (A-SEP: the record lists of controller / manager / connections are distinct objects, true by construction in the constructors), disseminator delivery, sink wiring of main.py. Non-interference between two connections is carried by the per-connection modifies clauses (frame obligations); the lift to arbitrary interleavings and a global disjointness invariant across all connections are argued, not machine-checked.',
+   technique='contract-based deductive verification: data-structure invariants, ownership-based frame conditions, ghost separation parameter; z3'),
 }
 
 NA_REASON = 'not yet built in this session (machinery under construction); see DESIGN.md section 6'
